@@ -256,12 +256,18 @@ spif_tok_dup(spif_tok_t self)
 
     ASSERT_RVAL(!SPIF_TOK_ISNULL(self), (spif_tok_t) NULL);
     tmp = spif_tok_new();
-    tmp->src = spif_str_dup(SPIF_STR(self->src));
+    if (!SPIF_STR_ISNULL(self->src)) {
+        tmp->src = spif_str_dup(SPIF_STR(self->src));
+    }
     tmp->quote = self->quote;
     tmp->dquote = self->dquote;
     tmp->escape = self->escape;
-    tmp->tokens = SPIF_LIST_DUP(self->tokens);
-    tmp->sep = spif_str_dup(SPIF_STR(self->sep));
+    if (!SPIF_LIST_ISNULL(self->tokens)) {
+        tmp->tokens = SPIF_LIST_DUP(self->tokens);
+    }
+    if (!SPIF_STR_ISNULL(self->sep)) {
+        tmp->sep = spif_str_dup(SPIF_STR(self->sep));
+    }
 
     return tmp;
 }
